@@ -360,3 +360,62 @@ class ProcessLineQueue(Contract):
                           z3.BoolVal(isinstance(lq, list) and lq == []), z3.Or(bad < 0, bad >= n))
         return [Case("queue", [gfa], post, pre=[n >= 0], heap=heap, zh={"added": z3.K(I, z3.IntVal(-1)), "n_added": z3.IntVal(0)}, models=models, invariants=invs,
                      symbols=dict(n_queued=n, version_already_known=known, index_of_a_line_that_is_refused=bad), minimize=[n])]
+
+
+@register
+class SearchLink(Contract):
+    fn = "gfapy/lines/finders.py::Finders._search_link"
+    props = ("C12", "C03", "C09")
+    fragment = "H"
+    doc = ("_search_link(from, to, overlap): the FIRST dovetail of the from-segment that is a link and is compatible with the request in either form "
+           "(is_compatible with the complement allowed: contract Link_is_compatible) - the same line whatever form it was stored in; None iff the segment is "
+           "unknown or none of its dovetails is such a link (loop invariant with early exit, every number of dovetails); nothing is written")
+
+    def cases(self, ctx):
+        g = ctx.gfapy
+        AIB_ = z3.ArraySort(I, B)
+        known = z3.Bool("segment_is_known")
+        n = z3.Int("n_dovetails")
+        dv = z3.Const("dovetail", AII)
+        is_link, compat = z3.Const("is_a_link", AIB_), z3.Const("compatible_with_the_request", AIB_)
+        gfa = Obj(g.Gfa, "gfa")
+        seg = Obj(g.line.segment.GFA1, "segment")
+        o1, o2, cg = Obj(None, "oriented_from"), Obj(None, "oriented_to"), Obj(None, "overlap")
+        nm = Obj(None, "name_of_from")
+        j = z3.Int("j")
+        dovs = SList(n, dv, lambda t: Ref(t, g.line.edge.Link))
+        heap = {gfa.oid: {}, seg.oid: {"dovetails": dovs}, o1.oid: {"line": nm}, o2.oid: {}, cg.oid: {}, nm.oid: {}}
+        def m_segment(E, st, pos, kw):
+            if pos[1] is not nm:
+                raise Unsupported("segment(%r)" % (pos[1],))
+            yield ("val", seg, [known]); yield ("val", None, [z3.Not(known)])
+        def m_isinstance(E, st, pos, kw):
+            x, c = pos
+            if isinstance(x, Ref) and c is g.line.edge.Link:
+                yield ("val", is_link[x.t], [])
+            else:
+                raise Unsupported("isinstance(%r, %r)" % (x, c))
+        def m_compat(E, st, pos, kw):
+            if not (pos[1] is o1 and pos[2] is o2 and pos[3] is cg):
+                raise Unsupported("is_compatible called with other arguments than (from, to, overlap, ..)")
+            either_form = len(pos) > 4 and pos[4] is True
+            # (asked without the complement form it is another relation: only the direct one)
+            yield ("val", compat[pos[0].t] if either_form else z3.Const("compatible_as_written_only", AIB_)[pos[0].t], [])
+        models = {ctx.fn("gfapy/lines/finders.py::Finders.segment"): m_segment, builtins.isinstance: m_isinstance,
+                  ctx.fn("gfapy/line/edge/link/equivalence.py::Equivalence.is_compatible"): m_compat}
+        hit = lambda x: z3.And(is_link[dv[x]], compat[dv[x]])
+        def inv(i, st):
+            return z3.And(0 <= i, i <= n, z3.ForAll([j], z3.Implies(z3.And(0 <= j, j < i), z3.Not(hit(j)))))
+        invs = {("Finders._search_link", 0): dict(inv=inv, mod={"l": lambda nm_: Ref(fresh(nm_, I), g.line.edge.Link)})}
+        def post(kd, v, st):
+            if kd == "raise":
+                return z3.BoolVal(False)
+            nohit = z3.ForAll([j], z3.Implies(z3.And(0 <= j, j < n), z3.Not(hit(j))))
+            if v is None:
+                return z3.Or(z3.Not(known), nohit)
+            if not isinstance(v, Ref):
+                return z3.BoolVal(False)
+            return z3.And(known, z3.Exists([j], z3.And(0 <= j, j < n, dv[j] == v.t, hit(j), z3.ForAll([z3.Int("j0")], z3.Implies(z3.And(0 <= z3.Int("j0"), z3.Int("j0") < j), z3.Not(hit(z3.Int("j0"))))))))
+        return [Case("dovetails", [gfa, o1, o2, cg], post, pre=[n >= 0], heap=heap, models=models, invariants=invs,
+                     symbols=dict(segment_is_known=known, n_dovetails=n), minimize=[n],
+                     replay=lambda w: {"target": "bounded.replay_helpers:link_compatibility_cases"}, confirm=battery_confirm)]
